@@ -596,10 +596,25 @@ def swap_type(bp, k, r):
     node = bp["nodes"][k]
     if node["cls"] not in ("Leaf", "LeafTwin"):
         return None
-    # a Leaf referenced through the Leaf-typed parameter must stay a Leaf
+    # a Leaf held by a Leaf-typed parameter (directly, or as the output of a task that returns
+    # its own parameter) must stay a Leaf
+    sp = spec()
+
+    def designates_k(v):
+        if isinstance(v, dict) and "ref" in v:
+            return v["ref"] == k
+        if isinstance(v, dict) and "out" in v and sp[bp["nodes"][v["out"]]["cls"]].get("output") == "param":
+            return designates_k(dict(bp["nodes"][v["out"]]["args"]).get("cfg"))
+        return False
+
     for n in bp["nodes"]:
-        for name, v in n["args"]:
-            if name == "leaf" and v == {"ref": k}:
+        typed = [(name, v) for name, v in n["args"]] + [(p, v) for t, p, v in (n.get("patches") or [])]
+        for name, v in typed:
+            tp = None
+            for c in sp.values():
+                if name in c["params"] and c["params"][name][1] in ("cfg:Leaf", ("opt", "cfg:Leaf")):
+                    tp = c["params"][name][1]
+            if tp is not None and designates_k(v):
                 return None
     node["cls"] = "LeafTwin" if node["cls"] == "Leaf" else "Leaf"
     return bp
